@@ -276,15 +276,15 @@ package yqlib
 //@   requires n != nil
 //@   assume forall(i, 0, len(children), children[i] != nil) && implies(n.Kind == MappingNode, len(children) % 2 == 0)
 //@   modifies n.Content
-//@   ensures @appended len(n.Content) == n0 + len(children) && forall(i, 0, n0, n.Content[i] == old(n.Content[i])) && implies(freshSlice(old(n.Content)), freshSlice(n.Content))
+//@   ensures @appended len(n.Content) == n0 + len(children) && forall(i, 0, n0, n.Content[i] == old(n.Content[i])) && (freshSlice(n.Content) || n.Content == old(n.Content))
 //@   ensures @children-fresh forall(i, n0, len(n.Content), n.Content[i] != nil && fresh(n.Content[i]) && n.Content[i].Parent == n)
 //@   loop 1:
 //@     invariant 0 <= i && i <= len(children) && i % 2 == 0
-//@     invariant implies(freshSlice(old(n.Content)), freshSlice(n.Content))
+//@     invariant freshSlice(n.Content) || n.Content == old(n.Content)
 //@     invariant len(n.Content) == n0 + i && forall(j, 0, n0, n.Content[j] == old(n.Content[j]))
 //@     invariant forall(j, n0, len(n.Content), n.Content[j] != nil && fresh(n.Content[j]) && n.Content[j].Parent == n)
 //@   loop 2:
-//@     invariant implies(freshSlice(old(n.Content)), freshSlice(n.Content))
+//@     invariant freshSlice(n.Content) || n.Content == old(n.Content)
 //@     invariant len(n.Content) == n0 + rangeidx() && forall(j, 0, n0, n.Content[j] == old(n.Content[j]))
 //@     invariant forall(j, n0, len(n.Content), n.Content[j] != nil && fresh(n.Content[j]) && n.Content[j].Parent == n)
 
@@ -482,3 +482,13 @@ package yqlib
 //@   props C11
 //@   requires n != nil
 //@   ensures result == (n.Kind == MappingNode || n.Kind == SequenceNode)
+
+// ---------------------------------------------------------------------------------------------
+// operator_encoder_decoder.go
+// Assumed (trusted): encoding a node to text reads it only — unless the encoder cannot handle aliases, in
+// which case the printer explodes the node in place (printer.go PrintResults). YAML is the format whose encoder
+// reports CanHandleAliases() == true.
+
+//@ func encodeToString
+//@   trusted
+//@   readonly-if prefs.format == YamlFormat
